@@ -39,6 +39,19 @@ package redis
 //@   ensures resp == scriptResp && err == scriptErr && scriptCalls == old(scriptCalls) + 1
 //@   modifies scriptResp, scriptErr, scriptCalls
 
+// Ping: redisUp[s] = whether the store answers a ping at this moment (environment). A ping succeeds only against a store that
+// is up, and does succeed against one when the context it runs under can never be done (trusted: go-redis PING); Ping() is
+// proved to ask under such a context.
+//@ ghost var redisUp map[any]bool
+//@ func (s *Redis) PingCtx
+//@   trusted
+//@   ensures implies(result, redisUp[s]) && implies(redisUp[s] && ctxNoDeadline[ctx], result)
+//@   modifies nothing
+//@ func (s *Redis) Ping
+//@   property C03
+//@   ensures result == redisUp[s]
+//@   modifies nothing
+
 //@ func (rl *RedisLock) AcquireCtx
 //@   property C19
 //@   overflow checked
